@@ -65,6 +65,7 @@ type Scenario struct {
 	Churn               bool           `json:"churn,omitempty"`                  // C15: nodes disconnect/reconnect while announcing
 	SlowConvergeWaitSec int            `json:"slow_converge_wait_sec,omitempty"` // timer-driven convergence (sync-peer rotation): poll this long before the verdict
 	BadFirst            bool           `json:"bad_first,omitempty"`              // misbehaving nodes are the only reachable ones until they have been dealt with
+	ServeQueries        int            `json:"serve_queries,omitempty"`          // C13: after convergence the honest node asks the service this many getheaders questions over the wire
 }
 
 // Result is what the scenario child reports.
@@ -657,6 +658,9 @@ func Execute(s *Scenario, dir string) (res *Result) {
 			}
 		}
 		x.checkConverged()
+		if s.ServeQueries > 0 && x.res.Verdict == "held" {
+			x.serveQueries()
+		}
 	}
 	x.scenarioSpecificChecks("end")
 	x.collectLocators()
@@ -809,5 +813,100 @@ func (x *runner) collectLocators() {
 			x.res.GetHeaders = append(x.res.GetHeaders, sh)
 		}
 		x.count("getheaders_multi_entry_locators", 1)
+	}
+}
+
+// serveQueries (C13, wire level): after convergence the service's longest chain is the honest chain, so the
+// expected answer to getheaders(locator, stop) is known from the world alone.
+func (x *runner) serveQueries() {
+	conns := x.nodes[0].Live()
+	if len(conns) == 0 {
+		return
+	}
+	c := conns[0]
+	H := x.w.Honest
+	tip := int32(len(H))
+	hashAt := func(h int32) refmodel.Hash {
+		if h == 0 {
+			return x.rig.Genesis
+		}
+		return H[h-1].HashOf()
+	}
+	rng := rand.New(rand.NewSource(x.s.Seed ^ 0x5eed))
+	for q := 0; q < x.s.ServeQueries; q++ {
+		var loc []refmodel.Hash
+		start := int32(0)
+		n := 1 + rng.Intn(4)
+		for i := 0; i < n; i++ {
+			switch rng.Intn(4) {
+			case 0:
+				var u refmodel.Hash
+				rng.Read(u[:])
+				loc = append(loc, u)
+			default:
+				h := int32(rng.Intn(int(tip) + 1))
+				if rng.Intn(3) == 0 && tip > 3 {
+					h = tip - int32(rng.Intn(3))
+				}
+				loc = append(loc, hashAt(h))
+				if h > start {
+					start = h
+				}
+			}
+		}
+		var stop refmodel.Hash
+		stopClass := "zero"
+		end := tip
+		switch rng.Intn(4) {
+		case 0:
+			if start < tip {
+				sh := start + 1 + int32(rng.Intn(int(tip-start)))
+				stop, end, stopClass = hashAt(sh), sh, "ahead"
+			}
+		case 1:
+			if start > 0 {
+				stop, stopClass = hashAt(int32(rng.Intn(int(start)+1))), "at-or-below-start"
+				end = start
+			}
+		case 2:
+			rng.Read(stop[:])
+			stopClass = "unknown"
+		}
+		if end-start > 2000 {
+			end = start + 2000
+		}
+		got, ok := c.AskHeaders(loc, stop, 15*time.Second)
+		x.count("wire_getheaders_asked", 1)
+		if !ok {
+			if end == start {
+				x.count("wire_getheaders_no_reply_for_empty_answer", 1) // nothing to send: silence is acceptable
+				continue
+			}
+			if c.Dead() {
+				return
+			}
+			if x.s.Engine == "exp" {
+				x.count("exp_getheaders_unanswered", 1)
+				continue
+			}
+			x.fail("served-headers|"+x.s.Engine+"|stop="+stopClass+"|no-reply", fmt.Sprintf("the service did not answer getheaders (start %d, expected %d headers) within the watchdog", start, end-start))
+			return
+		}
+		x.count("wire_getheaders_answered", 1)
+		want := int(end - start)
+		if len(got) != want {
+			kind := "too-few"
+			if len(got) > want {
+				kind = "too-many"
+			}
+			x.fail("served-headers|"+x.s.Engine+"|stop="+stopClass+"|"+kind, fmt.Sprintf("getheaders over the wire (start height %d, stop %s): got %d headers, expected %d", start, stopClass, len(got), want))
+			return
+		}
+		for i := range got {
+			if got[i].HashOf() != hashAt(start+1+int32(i)) {
+				x.fail("served-headers|"+x.s.Engine+"|stop="+stopClass+"|wrong-header", fmt.Sprintf("getheaders over the wire: header %d of the reply is not the longest-chain header at height %d", i, start+1+int32(i)))
+				return
+			}
+		}
 	}
 }
